@@ -8,7 +8,7 @@ for f in sorted(os.listdir(d)):
     if not f.endswith(".txt"):
         continue
     alarms, notes = [], []
-    for ln in open(os.path.join(d, f)):
+    for ln in open(os.path.join(d, f), errors="replace"):
         m = re.match(r'(C\d+) VIOLATION rule=(\S+) key="((?:[^"\\]|\\.)*)"(.*)', ln)
         if m:
             pr, rule, key = m.group(1), m.group(2), m.group(3).replace('\\"', '"')
